@@ -247,14 +247,20 @@ def zip3With {β γ δ ε : Type} (f : β → γ → δ → ε) : List β → Li
 def corners (r : α) (verts : List (P2 α)) : List (Corner α) :=
   zip3With (corner r) (rollR1 verts) verts (rollL 1 verts)
 
-/-- the root written in the arc loop, for vertex `v`, radius `r`, (mod 2π) angle `a` -/
+/-- the root written in the arc loop, for vertex `v`, radius `r`, (mod 2π) angle `a`
+    (since /repo 5df35a1: the discriminant `b² − 4ac` is evaluated in the cancellation-free form
+    `4 · max(r² − (|v| sin(a − φ))², 0)`):
+    `b = -2 * norm_v * cos(a - phi)`; `sin_term = norm_v * sin(a - phi)`;
+    `discriminant = 4 * np.maximum(radius**2 - sin_term**2, 0)`;
+    `(-b + sqrt(discriminant)) / (2 * a)` with `a = 1` -/
 def arcDist (v : P2 α) (r a : α) : α :=
   let normV := P2.norm v
   let phi := atan2Pos v.y v.x
   let aa : α := lit 1
   let b := -(lit 2) * normV * cos (a - phi)
-  let c := normV * normV - r * r
-  (-b + sqrt (b * b - lit 4 * aa * c)) / (lit 2 * aa)
+  let sinTerm := normV * sin (a - phi)
+  let discriminant := lit 4 * Scalar.max (r * r - sinTerm * sinTerm) (lit 0)
+  (-b + sqrt discriminant) / (lit 2 * aa)
 
 /-- the `for i in range(len(angle_ranges))` loop for one angle -/
 def arcsFold (r a : α) : List (Corner α) → Option α → Option α
